@@ -58,6 +58,9 @@ type pub struct {
 	Ext        map[string]extDef
 	Currencies []string
 	Countries  []string
+	MeansKeys  []string // keys.go: key sets published by the schemas
+	TermKeys   []string
+	NoteKeys   []string
 }
 
 func uniq(xs []string) []string {
@@ -261,6 +264,12 @@ func findPositions(doc map[string]any) []Position {
 							out = append(out, Position{Kind: "rate", Path: p})
 						}
 					}
+				case k == "key":
+					if _, ok := val.(string); ok {
+						if kind := keyKind(pathStr(path)); kind != "" { // keys.go
+							out = append(out, Position{Kind: kind, Path: p})
+						}
+					}
 				case k == "currency":
 					if _, ok := val.(string); ok {
 						out = append(out, Position{Kind: "currency", Path: p})
@@ -426,7 +435,7 @@ func (p *pub) defined(pos Position) []string {
 	case "country":
 		return p.Countries
 	}
-	return nil
+	return p.definedKeys(pos.Kind) // keys.go
 }
 
 // ---- cases -------------------------------------------------------------------------------------
@@ -583,6 +592,12 @@ func extractItems(p *pub, doc map[string]any) []item {
 					if s, ok := val.(string); ok {
 						out = append(out, item{req: hx("country") + " " + hx(s), what: "country " + s, path: pp, kind: "country"})
 					}
+				case k == "key":
+					if s, ok := val.(string); ok && s != "" {
+						if kind := keyKind(path); kind != "" { // keys.go
+							out = append(out, keyItem(kind, s, pp))
+						}
+					}
 				case k == "$regime" && path != "":
 					// the `$regime` a party declares for itself
 					if s, ok := val.(string); ok {
@@ -709,6 +724,7 @@ func Run(c *core.Ctx) int {
 		c.TieBroken("drive:C18/defs", err.Error(), nil)
 		return c.Finish(rule, nil)
 	}
+	p.loadKeySets(c.Repo) // keys.go
 	exs, err := loadExamples(c.Repo)
 	if err != nil || len(exs) == 0 {
 		c.TieBroken("drive:C18/examples", fmt.Sprint("no examples: ", err), nil)
@@ -740,6 +756,9 @@ func Run(c *core.Ctx) int {
 			for _, pos := range ex.pos {
 				c.Count("positions:"+pos.Kind, 1)
 				for _, v := range undefinedFamily[pos.Kind] {
+					cases = append(cases, Case{Example: ex.name, Position: pos, Value: v})
+				}
+				for _, v := range undefinedKeys[pos.Kind] { // keys.go
 					cases = append(cases, Case{Example: ex.name, Position: pos, Value: v})
 				}
 				// undefined values derived from the defined one in place: a defined
@@ -848,6 +867,9 @@ func Run(c *core.Ctx) int {
 				continue
 			}
 			if f[1] == "1" {
+				if f[2] == "0" && strings.HasSuffix(it.kind, "key") { // keys.go: accepted by the code, refused by the model of its rule
+					c.TieBroken("drive:C18/"+it.kind, "the code accepted a key the model of its rule rejects: "+it.what, map[string]any{"case": r.cs})
+				}
 				continue
 			}
 			c.Count("unresolved:"+it.kind, 1)
